@@ -201,3 +201,18 @@ def run(ctx):
     ctx.assumptions += ['string order is specified extensionally on the universe StrOrder of spec/Order.tla',
                         'cross-type ranking is not pinned by the property and is not checked beyond the preorder axioms',
                         'on two scalars of one kind (numbers, strings, datetimes) cmp is required to be Python\'s native order']
+
+
+def replay(ctx, body):
+    c = body['case']
+    if c['op'] in ('sort', 'Cmp'): obs = [sort_obs(c['xs'], c['op'])]
+    elif c['op'] == 'dictable.sort': obs = [dsort_obs(c['rows'], c['by'])]
+    elif c['op'] == 'dictable.sort(**byval)': obs = [dsortval_obs(c['rows'], c['orders'])]
+    else:
+        vals = universe(); path, tags, M, rows = matrix_obs(ctx, vals); obs = rows
+        bad = ctx.validate('Trace_Order', obs, env={'MAT_FILE': path})
+        print('replay (whole cmp matrix):', 'REJECTED %s' % bad[:5] if bad else 'accepted'); return 1 if bad else 0
+    path, tags, M, rows = matrix_obs(ctx, [None, 1])
+    bad = ctx.validate('Trace_Order', obs, env={'MAT_FILE': path})
+    print('replay:', 'REJECTED %s' % bad if bad else 'accepted')
+    return 1 if bad else 0
